@@ -1,4 +1,18 @@
-"""Per-property metadata for bin/check."""
+"""Per-property metadata for bin/check: one JSON file per property under bin/meta/.
+
+Keys of bin/meta/<ID>.json:
+  gen           regenerated modules (names of lean/BHS/Gen/<name>.lean) the property depends on
+  lean_targets  lake targets holding the property theorems (e.g. ["BHS.Props.C19"])
+  audit         path (relative to lean/) of the file with one `#print axioms <theorem>` per property theorem
+  trusted       list of strings: property-specific trusted base
+  assumptions   list of strings
+  partial       list of strings naming `_partial` theorems and what they exclude
+  explanation   string
+  manifest      {text, note, technique, category?, design_ref?} for MANIFEST.json
+"""
+import glob
+import json
+import os
 
 COMMON_TRUSTED = [
     "Lean 4.33.0 kernel (thorough tier: leanchecker re-check of the .olean files)",
@@ -7,16 +21,6 @@ COMMON_TRUSTED = [
     "Go toolchain, SQLite, gin, encoding/json, viper, net/http, centrifuge are parameters of the model, exercised by the correspondence check, not verified",
 ]
 
-PROPS = {
-    "C19": {
-        "gen": ["Arith"],
-        "lean_targets": ["BHS.Props.C19"],
-        "audit": "BHS/Audit/C19.lean",
-        "trusted": [
-            "translator harness/cmd/extract/arith.go (Go straight-line subset -> Lean do-block; validated on every run by the correspondence check: the regenerated Lean definitions and domains.CompactToBig/CalculateWork/FastLog2Floor are evaluated on the same inputs)",
-            "math/big (Lsh, Add, Div, Neg, Sign) is modelled by Lean Int arithmetic",
-        ],
-        "assumptions": ["inputs are uint32 (hypothesis b < 2^32 / n < 2^32 of every theorem)"],
-        "explanation": "Theorems are stated over BHS.Gen.compactToBig/calcWork/fastLog2Floor, which are regenerated from domains/chainwork.go and domains/headers.go on every run; they cover all 2^32 inputs by proof, not enumeration.",
-    },
-}
+PROPS = {}
+for _p in sorted(glob.glob(os.path.join(os.path.dirname(os.path.abspath(__file__)), "meta", "C*.json"))):
+    PROPS[os.path.basename(_p)[:-5]] = json.load(open(_p))
